@@ -110,10 +110,15 @@ func (o DIOpt) build() sif.DescriptorInputOpt {
 	panic("bad DIOpt " + o.Kind)
 }
 
-func (d DI) build() (sif.DescriptorInput, error) {
+func (d DI) build() (sif.DescriptorInput, error) { return d.buildWith(nil) }
+
+// buildWith: src, when not nil, is the reader handed to the library instead of one over Data.
+func (d DI) buildWith(src io.Reader) (sif.DescriptorInput, error) {
 	var r io.Reader
 	data := d.Data.Bytes()
-	if d.Fail >= 0 {
+	if src != nil {
+		r = src
+	} else if d.Fail >= 0 {
 		n := d.Fail
 		if n > len(data) {
 			n = len(data)
@@ -143,9 +148,15 @@ type Env struct {
 	ctl      *ctlRW         // the interposer of the current handle
 	stats    map[string]int // campaign counters
 	pending  []*Violation   // violations found by the crash oracle during Apply
+	st       sif.ReadWriter // C14: bare backing store driven by raw calls
+	stFile   *os.File
 }
 
 func (e *Env) Close() {
+	if e.stFile != nil {
+		e.stFile.Close()
+		e.stFile = nil
+	}
 	if e.f != nil {
 		_ = e.f.UnloadContainer()
 		e.f = nil
@@ -288,6 +299,8 @@ func (e *Env) applyCore(op *Op) []string {
 	switch op.Kind {
 	case "cli":
 		return e.applyCli(op)
+	case "st":
+		return e.applySt(op.St)
 	case "case":
 		return []string{fmt.Sprintf("case %d", op.Case)}
 	case "create":
@@ -538,7 +551,22 @@ func (e *Env) applyCore(op *Op) []string {
 	var err error
 	switch op.Kind {
 	case "add":
-		di, derr := op.DI.build()
+		var src io.Reader
+		if op.DI.Src != 0 {
+			// in-image copy: the library reads the source object through the very handle (and
+			// backing store) it is writing to; the model sees the bytes that object holds now
+			op.DI.Fail = -1
+			if d, derr := e.f.GetDescriptor(sif.WithID(op.DI.Src)); derr == nil {
+				if b, gerr := d.GetData(); gerr == nil {
+					op.DI.Data = DataSpec{Lit: b}
+					src = d.GetReader()
+					if e.stats != nil {
+						e.stats["add:in-image-copy"]++
+					}
+				}
+			}
+		}
+		di, derr := op.DI.buildWith(src)
 		if derr != nil {
 			return []string{"res " + errClass(derr)}
 		}
@@ -623,4 +651,78 @@ func objLine(pfx string, d sif.Descriptor) string {
 		pfx, d.ID(), int32(d.DataType()), d.GroupID(), link, lk, d.Offset(), d.Size(),
 		d.CreatedAt().Unix(), d.ModifiedAt().Unix(), hx([]byte(d.Name())), trimNulHex(rc.b),
 		rel, fnv64(stream), data)
+}
+
+// applySt executes one raw call on the bare backing store and renders its result together with
+// the store's position (read with Seek(0, io.SeekCurrent)), length and contents.
+func (e *Env) applySt(s *StOp) []string {
+	if s.Call == "new" {
+		if e.stFile != nil {
+			e.stFile.Close()
+			e.stFile = nil
+		}
+		init := s.Data.Bytes()
+		if s.Be == "file" {
+			e.fileSeq++
+			p := filepath.Join(e.dir, fmt.Sprintf("store%d.bin", e.fileSeq))
+			if err := os.WriteFile(p, init, 0o644); err != nil {
+				return []string{"st new err"}
+			}
+			fp, err := os.OpenFile(p, os.O_RDWR, 0o644)
+			if err != nil {
+				return []string{"st new err"}
+			}
+			e.stFile, e.st = fp, fp
+		} else {
+			e.st = sif.NewBuffer(append([]byte(nil), init...))
+		}
+		return []string{"st new " + e.stState()}
+	}
+	if e.st == nil {
+		return []string{"nostore"}
+	}
+	r := ""
+	switch s.Call {
+	case "seek":
+		n, err := e.st.Seek(s.Off, io.SeekStart)
+		r = fmt.Sprintf("seek r=%d/%s", n, okErr(err))
+	case "seekend":
+		n, err := e.st.Seek(0, io.SeekEnd)
+		r = fmt.Sprintf("seek r=%d/%s", n, okErr(err))
+	case "write":
+		n, err := e.st.Write(s.Data.Bytes())
+		r = fmt.Sprintf("write r=%d/%s", n, okErr(err))
+	case "trunc":
+		r = "trunc r=" + okErr(e.st.Truncate(s.N))
+	case "read":
+		p := make([]byte, s.N)
+		n, err := e.st.ReadAt(p, s.Off)
+		cls := okErr(err)
+		if err == io.EOF {
+			cls = "eof"
+		}
+		r = fmt.Sprintf("read r=%d:%d/%s", n, fnv64(p[:n]), cls)
+	}
+	return []string{"st " + r + " " + e.stState()}
+}
+
+func okErr(err error) string {
+	if err == nil {
+		return "ok"
+	}
+	return "err"
+}
+
+func (e *Env) stState() string {
+	pos, err := e.st.Seek(0, io.SeekCurrent)
+	if err != nil {
+		pos = -1
+	}
+	var b []byte
+	if e.stFile != nil {
+		b, _ = os.ReadFile(e.stFile.Name())
+	} else if bb, ok := e.st.(*sif.Buffer); ok {
+		b = bb.Bytes()
+	}
+	return fmt.Sprintf("pos=%d len=%d fnv=%d", pos, len(b), fnv64(b))
 }
